@@ -137,6 +137,30 @@ CalcGreedy(shape, new, subs) ==
              ELSE [ok |-> TRUE, why |-> "", unfuse |-> un.axs,
                    fuse |-> IF st2.anyf \/ st2.anys THEN FuseLoop(sq.term, sq.fus, 1, <<>>, <<>>) ELSE <<>>,
                    expand |-> RevSeq(st2.exp)]
+\* NEGATIVE CONTROL ONLY (never used by the trace spec or the machine): the routine as it was before the repair of F17 -
+\* one greedy parse, leftover axes taken to be squeezable / expansions without looking at their size, no retry
+TrailingOrig(shape, new, st) ==
+  LET ni == Len(shape) - st.i + 1
+      nj == Len(new) - st.j + 1
+  IN [st EXCEPT !.term = @ \o RepSeq(LabS, IF ni > 0 THEN ni ELSE 0),
+                !.anys = @ \/ ni > 0,
+                !.exp = @ \o RepSeq(st.k, IF nj > 0 THEN nj ELSE 0)]
+CalcOriginal(shape, new, subs) ==
+  LET st0 == [i |-> 1, j |-> 1, k |-> 0, term |-> <<>>, unf |-> <<>>, fus |-> <<>>, exp |-> <<>>,
+              anys |-> FALSE, anyf |-> FALSE, err |-> ""]
+      st1 == MatchLoop(shape, new, subs, st0)
+  IN IF st1.err # "" THEN RaiseOf(st1.err)
+     ELSE LET st2 == TrailingOrig(shape, new, st1)
+              un == DoUnfuse(st2.term, st2.unf, 0, <<>>)
+              sq == IF st2.anys
+                    THEN LET a == SqueezeLeft(un.term, st2.fus) IN
+                         IF a.err THEN [term |-> un.term, fus |-> st2.fus, err |-> TRUE]
+                         ELSE LET b == SqueezeRest(a.term, a.fus, a.p) IN [term |-> b.term, fus |-> b.fus, err |-> FALSE]
+                    ELSE [term |-> un.term, fus |-> st2.fus, err |-> FALSE]
+          IN IF sq.err THEN RaiseOf("index")
+             ELSE [ok |-> TRUE, why |-> "", unfuse |-> un.axs,
+                   fuse |-> IF st2.anyf \/ st2.anys THEN FuseLoop(sq.term, sq.fus, 1, <<>>, <<>>) ELSE <<>>,
+                   expand |-> RevSeq(st2.exp)]
 \* calc_reshape_args: unfusing is matched greedily; when that cannot give the new shape, the fused axes are, one after
 \* the other (first success wins, recursively), kept as they are
 RECURSIVE CalcReshapeArgs(_, _, _)
